@@ -57,9 +57,13 @@ func reuseCheck(c *core.Case, e *entry, op string, exercise bool, docs ...[]byte
 	}
 	if err == nil {
 		c.Count("reused_target_accepted", 1)
-		if _, p := encodeAll(c, e.name, target); p {
+		// whatever was accepted can be written again
+		if guard(c, e.name, op+" then MarshalXML", func() { _, _ = xml.Marshal(target) }) {
 			return
 		}
+	}
+	if !exercise {
+		return // the hostile pair is only judged for panics
 	}
 	fresh := e.fresh()
 	var ferr error
@@ -151,10 +155,20 @@ func overwriteLaw(c *core.Case, e *entry, encA, encB []byte) {
 		d = mk(false).diffValues(freshB, target)
 	}
 	if d != nil {
-		violate(c, "codec:I:"+typ+":decode-keeps-previous:"+d.Field, "decoding B into a value that held A differs from a fresh decode of B in a field the decoder assigns unconditionally: %s\nA: %s\nB: %s", d.Detail, qb(encA), qb(encB))
+		violate(c, "codec:I:"+typ+":decode-keeps-previous:"+topField(d.Field), "decoding B into a value that held A differs from a fresh decode of B in a field the decoder assigns unconditionally: %s\nA: %s\nB: %s", d.Detail, qb(encA), qb(encB))
 		return
 	}
 	if d := mk(true).diffValues(freshA, cp.Interface()); d != nil {
-		violate(c, "codec:I:"+typ+":decode-writes-through-copy:"+d.Field, "a copy of the value taken before decoding B into it no longer holds A: %s\nA: %s\nB: %s", d.Detail, qb(encA), qb(encB))
+		violate(c, "codec:I:"+typ+":decode-writes-through-copy:"+topField(d.Field), "a copy of the value taken before decoding B into it no longer holds A: %s\nA: %s\nB: %s", d.Detail, qb(encA), qb(encB))
 	}
+}
+
+// topField: the top-level field of a path (the unit the decoder assigns).
+func topField(p string) string {
+	for i := 0; i < len(p); i++ {
+		if p[i] == '.' {
+			return p[:i]
+		}
+	}
+	return p
 }
